@@ -387,8 +387,9 @@ pub fn gen_logfuzz(r: &mut Rng, _cfg: &RunCfg) -> Op {
 			_ => r.below(1 << 24),
 		} as u32;
 		let m = match r.below(20) {
-			0..=4 => LogMutation::Truncate { file_sel, at },
-			5..=9 => LogMutation::FlipBit { file_sel, at, bit: r.below(8) as u8 },
+			0..=3 => LogMutation::Truncate { file_sel, at },
+			4..=6 => LogMutation::FlipBit { file_sel, at, bit: r.below(8) as u8 },
+			7..=9 => LogMutation::Field { file_sel, entry_sel: r.next() as u32, val_sel: r.below(16) as u32, seed: r.next() },
 			10 => LogMutation::FlipTwo { file_sel, at, bit: r.below(8) as u8, dist: r.below(1000) as u32, bit2: r.below(8) as u8 },
 			11..=12 => LogMutation::Burst { file_sel, at, xor: (r.next() as u32) | 1 },
 			13..=14 => LogMutation::AppendGarbage { file_sel, len: r.below(300) as u32, seed: r.next() },
